@@ -14,6 +14,15 @@ import (
 
 func init() { register("C11", checkC11) }
 
+// trimGorootClass: the child was built with -trimpath and ran with GOROOT exported and no
+// -trimpath hint in GOFLAGS (fixed entry of known_findings.json).
+func trimGorootClass(res *RunResult) string {
+	if res != nil && len(res.TrimEnv) == 1 && strings.HasPrefix(res.TrimEnv[0], "GOROOT=") {
+		return "trimpath-build-with-GOROOT-exported"
+	}
+	return ""
+}
+
 var footerRE = regexp.MustCompile(`(?m)^at (.+):(\d+)$`)
 
 func checkC11(c *vkit.Ctx) {
@@ -179,7 +188,7 @@ func runC11(c *vkit.Ctx, plain, trim *Program, foreign []string, absDir string, 
 		}
 	}
 	if fmt.Sprint(keysOf(got)) != fmt.Sprint(keysOf(want)) {
-		c.Violate("snapshot-location", "", fmt.Sprintf("launch=%s package=%q: created %v, the location function gives %v", launch, pkg, relAll(keysOf(got), p.Root), relAll(keysOf(want), p.Root)), in)
+		c.Violate("snapshot-location", trimGorootClass(res), fmt.Sprintf("launch=%s %v package=%q: created %v, the location function gives %v", launch, res.TrimEnv, pkg, relAll(keysOf(got), p.Root), relAll(keysOf(want), p.Root)), in)
 		return
 	}
 	c.Count("location_sets_compared", 1)
@@ -202,7 +211,7 @@ func runC11(c *vkit.Ctx, plain, trim *Program, foreign []string, absDir string, 
 			}
 			m := footerRE.FindStringSubmatch(vkit.StripANSI(cr.Signals.Errors[0]))
 			if m == nil {
-				c.Violate("failure-report-without-footer", "", vkit.Q(cr.Signals.Errors[0]), in)
+				c.Violate("failure-report-without-footer", trimGorootClass(res2), vkit.Q(cr.Signals.Errors[0]), in)
 				return
 			}
 			base := src
